@@ -969,6 +969,23 @@ type publisher struct {
 }
 
 func collectPublishers(p *packages.Package, repo string, out *[]publisher) {
+	type fnInfo struct {
+		fd                     *ast.FuncDecl
+		rel                    string
+		pubs, returns, defers  []token.Pos
+		calls                  map[*types.Func][]token.Pos // calls to functions of this package (outside function literals)
+		returnsStateDB, called bool
+	}
+	infos := map[*types.Func]*fnInfo{}
+	var order []*types.Func
+	isStateDBPtr := func(t types.Type) bool {
+		pt, ok := t.(*types.Pointer)
+		if !ok {
+			return false
+		}
+		n, ok := pt.Elem().(*types.Named)
+		return ok && n.Obj().Name() == "StateDB"
+	}
 	for _, f := range p.Syntax {
 		fname := p.Fset.Position(f.Pos()).Filename
 		base := filepath.Base(fname)
@@ -985,8 +1002,18 @@ func collectPublishers(p *packages.Package, repo string, out *[]publisher) {
 			if !ok || fd.Body == nil || fd.Name.Name == "NewStateDB" {
 				continue
 			}
-			var pubs, returns []token.Pos
-			var defers []token.Pos
+			obj, _ := p.TypesInfo.Defs[fd.Name].(*types.Func)
+			if obj == nil {
+				continue
+			}
+			in := &fnInfo{fd: fd, rel: rel, calls: map[*types.Func][]token.Pos{}}
+			if sig, ok := obj.Type().(*types.Signature); ok {
+				for i := 0; i < sig.Results().Len(); i++ {
+					if isStateDBPtr(sig.Results().At(i).Type()) {
+						in.returnsStateDB = true
+					}
+				}
+			}
 			var walk func(n ast.Node, inLit bool)
 			walk = func(n ast.Node, inLit bool) {
 				ast.Inspect(n, func(x ast.Node) bool {
@@ -998,7 +1025,7 @@ func collectPublishers(p *packages.Package, repo string, out *[]publisher) {
 						return x == n
 					case *ast.ReturnStmt:
 						if !inLit {
-							returns = append(returns, y.Pos())
+							in.returns = append(in.returns, y.Pos())
 						}
 					case *ast.DeferStmt:
 						clears := false
@@ -1011,45 +1038,101 @@ func collectPublishers(p *packages.Package, repo string, out *[]publisher) {
 							return true
 						})
 						if clears && !inLit {
-							defers = append(defers, y.Pos())
+							in.defers = append(in.defers, y.Pos())
 						}
 						return false
 					case *ast.CallExpr:
-						if sel, ok := y.Fun.(*ast.SelectorExpr); ok && sel.Sel.Name == "NewStateDB" && !inLit {
-							pubs = append(pubs, y.Pos())
+						if inLit {
+							return true
+						}
+						var id *ast.Ident
+						switch fx := y.Fun.(type) {
+						case *ast.SelectorExpr:
+							id = fx.Sel
+						case *ast.Ident:
+							id = fx
+						}
+						if id == nil {
+							return true
+						}
+						if id.Name == "NewStateDB" {
+							if _, isSel := y.Fun.(*ast.SelectorExpr); isSel {
+								in.pubs = append(in.pubs, y.Pos())
+							}
+							return true
+						}
+						if callee, ok := p.TypesInfo.Uses[id].(*types.Func); ok && callee.Pkg() == p.Types {
+							if o := callee.Origin(); o != nil {
+								callee = o
+							}
+							in.calls[callee] = append(in.calls[callee], y.Pos())
 						}
 					}
 					return true
 				})
 			}
 			walk(fd.Body, false)
-			if len(pubs) == 0 {
-				continue
-			}
-			guarded := true
-			for _, pp := range pubs {
-				var dpos token.Pos
-				for _, dp := range defers {
-					if dp > pp && (dpos == 0 || dp < dpos) {
-						dpos = dp
-					}
-				}
-				if dpos == 0 {
-					guarded = false
+			infos[obj] = in
+			order = append(order, obj)
+		}
+	}
+	// A function that creates the StateDB, has no clearing defer of its own and RETURNS the StateDB only hands the
+	// publication to its caller (the "reuse or create" idiom extracted into a helper): a call to it is a publication site of
+	// the caller, transitively; the helper itself is not a publisher as long as somebody in the package calls it.
+	helper := func(in *fnInfo) bool { return len(in.pubs) > 0 && len(in.defers) == 0 && in.returnsStateDB }
+	for changed, round := true, 0; changed && round < 6; round++ {
+		changed = false
+		for _, obj := range order {
+			in := infos[obj]
+			for callee, poss := range in.calls {
+				h := infos[callee]
+				if h == nil || callee == obj || !helper(h) {
 					continue
 				}
-				for _, rp := range returns {
-					if rp > pp && rp < dpos {
-						guarded = false
+				h.called = true
+				for _, pos := range poss {
+					dup := false
+					for _, q := range in.pubs {
+						if q == pos {
+							dup = true
+						}
+					}
+					if !dup {
+						in.pubs = append(in.pubs, pos)
+						changed = true
 					}
 				}
 			}
-			key := fd.Name.Name
-			if r := recvName(fd); r != "" {
-				key = r + "." + key
-			}
-			*out = append(*out, publisher{pkg: rel, fn: key, guarded: guarded, scp: scopeOf(rel)})
 		}
+	}
+	for _, obj := range order {
+		in := infos[obj]
+		if len(in.pubs) == 0 || (helper(in) && in.called) {
+			continue
+		}
+		guarded := true
+		for _, pp := range in.pubs {
+			var dpos token.Pos
+			for _, dp := range in.defers {
+				if dp > pp && (dpos == 0 || dp < dpos) {
+					dpos = dp
+				}
+			}
+			if dpos == 0 {
+				guarded = false
+				continue
+			}
+			for _, rp := range in.returns {
+				if rp > pp && rp < dpos {
+					guarded = false
+				}
+			}
+		}
+		key := in.fd.Name.Name
+		if r := recvName(in.fd); r != "" {
+			key = r + "." + key
+		}
+		*out = append(*out, publisher{pkg: in.rel, fn: key, guarded: guarded, scp: scopeOf(in.rel)})
 	}
 }
 
